@@ -217,21 +217,27 @@ def load_known(prop: str) -> list:
             if f.get("property") == prop and f.get("status") == "open"]
 
 
+def clauses_of(verdict) -> list:
+    """A verdict is "ok", a clause name, or a collection of clause names."""
+    if isinstance(verdict, str):
+        return [] if verdict == "ok" else [verdict]
+    return [str(c) for c in verdict if c != "ok"]
+
+
 def classify(report: Report, verdicts: dict, cases_by_id: dict, *, family: str) -> None:
     """Split non-ok verdicts into listed known findings and new violations."""
     known = load_known(report.prop)
-    for cid, clause in verdicts.items():
-        if clause == "ok":
-            continue
-        hit = None
-        for f in known:
-            if f["clause"] == clause and (not f.get("family") or f["family"] == family):
-                hit = f
-                break
-        if hit is not None:
-            report.known_hits[hit["id"]] = report.known_hits.get(hit["id"], 0) + 1
-        else:
-            report.violations.append(Verdict(cid, str(clause), cases_by_id.get(cid)))
+    for cid, verdict in verdicts.items():
+        for clause in clauses_of(verdict):
+            hit = None
+            for f in known:
+                if f["clause"] == clause and (not f.get("family") or f["family"] == family):
+                    hit = f
+                    break
+            if hit is not None:
+                report.known_hits[hit["id"]] = report.known_hits.get(hit["id"], 0) + 1
+            else:
+                report.violations.append(Verdict(cid, str(clause), cases_by_id.get(cid)))
 
 
 # ----------------------------------------------------------------------------- output
@@ -243,6 +249,10 @@ def finish(report: Report) -> int:
         print(f"KNOWN-FINDING: property={report.prop} {known[fid]['what']} "
               f"[{fid}; {cnt} case(s) this run]")
     rc = 0
+    rdir0 = REPLAYS / report.prop
+    if rdir0.exists():
+        for old in rdir0.glob("*.json"):
+            old.unlink()
     per_clause = {}
     listed = 0
     for v in report.violations:
@@ -255,6 +265,8 @@ def finish(report: Report) -> int:
         rdir.mkdir(parents=True, exist_ok=True)
         safe = "".join(ch if ch.isalnum() or ch in "-_." else "_" for ch in str(v.case_id))[:80]
         path = rdir / f"{safe}.json"
+        if path.exists():
+            path = rdir / f"{safe}.{listed}.json"
         path.write_text(json.dumps({"property": report.prop, "clause": v.clause,
                                     "case": v.case}, indent=1, sort_keys=True))
         print(f"VIOLATION property={report.prop} replay={path} clause={v.clause}")
